@@ -667,9 +667,11 @@ func sectionRace(rng *vh.Rng) {
 			})
 		}
 		oks := make([]bool, k)
+		returned := make([]chan struct{}, k)
 		var wg sync.WaitGroup
 		for i := 0; i < k; i++ {
 			gates[i] = make(chan struct{})
+			returned[i] = make(chan struct{})
 			wg.Add(1)
 			if parked {
 				curMu.Lock()
@@ -678,6 +680,7 @@ func sectionRace(rng *vh.Rng) {
 			}
 			go func(i int) {
 				defer wg.Done()
+				defer close(returned[i])
 				_, err := srv.Pipes.CreatePipe(pipe.Pipe{Name: name, TagsCond: fmt.Sprintf("a=%d", i)})
 				oks[i] = err == nil
 			}(i)
@@ -693,8 +696,9 @@ func sectionRace(rng *vh.Rng) {
 		if parked {
 			verifhook.Set("pipe.create.betweenChecks", nil)
 			for _, i := range order {
+				// one caller at a time performs its second critical section: the schedule is exactly `order`
 				close(gates[i])
-				time.Sleep(200 * time.Microsecond)
+				<-returned[i]
 			}
 		}
 		wg.Wait()
